@@ -388,7 +388,10 @@ def check_C01(run):
     check_hist_generic(run, [("kv", "kv", 400, 8000, RULE_HIST + "; profile kv: Put/PutWithTimestamp/Delete/Get/GetAll/"
                               "RangeScan/PrefixScan/PrefixSearchScan, TTLs on both sides of expiry, exact-fill and oversize entries"),
                              ("kvdeep", "kvdeep", 200, 4000, RULE_HIST + "; profile kvdeep: 48 keys in one bucket inserted in scattered "
-                              "order over 30 transactions, so that the real B+ tree has several levels and inner leaves split")])
+                              "order over 30 transactions, so that the real B+ tree has several levels and inner leaves split"),
+                             ("framekv", "framekv", 100, 2000, RULE_HIST + "; profile framekv: key/value buckets b, b1, bk, bk1 and keys "
+                              "1key, key, k1key, 1, 11, k, k1 (bucket+key concatenations coincide across buckets), transactions of 2-6 "
+                              "calls over several buckets, reopen after a quarter of them")])
 
 
 def check_C03(run):
@@ -468,7 +471,10 @@ def check_C08(run):
                               "key/value record whose value is forged so that the CRC-32 of the stored record is exactly 0 (sometimes 1), "
                               "reopen after half of the transactions"),
                              ("manyseg", "manyseg", 25, 500, RULE_HIST + "; profile manyseg: 45 transactions over segments of 150-200 "
-                              "bytes (more than ten and more than twenty data files, ids with one and two digits), reopened often")])
+                              "bytes (more than ten and more than twenty data files, ids with one and two digits), reopened often"),
+                             ("framekv", "framekv", 80, 1600, RULE_HIST + "; profile framekv: key/value buckets whose names are prefixes "
+                              "of each other with keys whose bucket+key concatenations coincide, reopen after a quarter of the "
+                              "transactions")])
 
 
 def check_C12(run):
@@ -477,7 +483,12 @@ def check_C12(run):
                              ("fault", "fault", 60, 1200, "fault injection: for a write transaction of k records, an I/O error is "
                               "injected at each mutation point of Commit (with a partial write of 0, 10, 42, all-1 bytes); after "
                               "Rollback and after reopen the full observation must equal the one before the transaction; a sync "
-                              "error after a complete write: all or nothing")])
+                              "error after a complete write: all or nothing; every third case is aimed: the transaction overwrites "
+                              "a live key and fails exactly at the write of its last record, further segments are filled and Merge "
+                              "runs in the same process: reads must not change, before and after a reopen"),
+                             ("sparse", "sparse", 60, 1200, RULE_HIST + "; profile sparse: 10% read-only transactions that scan "
+                              "(GetAll, RangeScan, PrefixScan) in HintBPTSparseIdxMode: a read-only transaction leaves every later "
+                              "read unchanged")])
 
 
 def check_C13(run):
@@ -552,6 +563,10 @@ def check_C10(run):
     r = hist_suite(run, "crash", ["hist", "-n", n, "-x", "crash"], RULE_CRASH, use_driver=False)
     crash_cov(run, r)
     sparse_crash(run, "crashsparse")
+    check_hist_generic(run, [("fault", "fault", 45, 900, "the C12 fault-injection suite, here for 'loses no committed transaction': "
+                              "after a Commit that failed with an I/O error (nothing, a prefix or all of the record written) later "
+                              "transactions commit into the same segment (also one that forces a rotation) and must survive the "
+                              "reopen")])
 
 
 def check_C11(run):
@@ -595,9 +610,10 @@ def check_C20(run):
                "finished transactions, Merge/Backup/Close in any state, reopen with other options); panics are recovered per call and "
                "reported; a case is one call", use_driver=False)
     n = 200 if run.tier == "quick" else 4000
-    hist_suite(run, "fuzzsparse", ["hist", "-n", n, "-x", "fuzzsparse"], "the same in HintBPTSparseIdxMode with the key/value calls "
-               "(the structures the sparse mode supports), 30 seeded writes, PrefixScan over buckets that hold keys with offsets "
-               "-1..3 and limits up to +-2^63", use_driver=False)
+    hist_suite(run, "fuzzsparse", ["hist", "-n", n, "-x", "fuzzsparse"], "the same in HintBPTSparseIdxMode (two thirds key/value calls, "
+               "the rest on lists, sets and sorted sets: a call that succeeds must not make a later Commit panic in any index mode), "
+               "30 seeded writes, PrefixScan over buckets that hold keys with offsets -1..3 and limits up to +-2^63, and in every "
+               "fourth history eight transactions of one structure only that rotate the segment", use_driver=False)
     check_hist_generic(run, [("list", "list", 200, 4000, RULE_HIST + "; profile list with +-2^63 arguments: a panic is a mismatch "
                               "with the (panic-free) model"),
                              ("zset", "zset", 200, 4000, RULE_HIST + "; profile zset with extreme ranks"),
@@ -703,6 +719,9 @@ def check_C14(run):
     b = race_binary(run)
     n = 25 if run.tier == "quick" else 600
     hist_suite(run, "conc", ["hist", "-n", n, "-x", "conc"], RULE_CONC, binary=b, env={"GORACE": "halt_on_error=0 exitcode=0"})
+    check_hist_generic(run, [("sparse", "sparse", 60, 1200, RULE_HIST + "; profile sparse (HintBPTSparseIdxMode, which the concurrent "
+                              "suite does not run): the degenerate schedule - read-only transactions that scan, then read-only "
+                              "transactions that Get - must already be serial: a read must not change what a later read returns")])
 
 
 def check_C17(run):
